@@ -13,30 +13,30 @@ COMMON_NOTE = ('Trusted: Lean 4.33 kernel + Mathlib; axioms propext, Classical.c
                'IEEE-754 rounding, numpy/scipy primitives, LAPACK solves and libm are modelled (exact arithmetic over Q), not verified. ')
 
 T = {
- 'C01': ('Theorems (all orders, all valid knot vectors, all derivative orders, both sides, periodic wrap): the model of basis_eval.pyx/BSplineBasis.evaluate returns exactly the Cox-de Boor values/derivatives (C01_value_deriv_open/periodic), start-from-left and outside rows are zero, non-negativity, partition of unity, high derivatives vanish, sparse = dense, periodic shift invariance. Correspondence: whole rows, dense and sparse, against the recompiled extension.',
+ 'C01': ('Theorems (all orders, all valid knot vectors, all derivative orders, both sides, periodic wrap): the model of basis_eval.pyx/BSplineBasis.evaluate returns exactly the Cox-de Boor values/derivatives (C01_value_deriv_open/periodic), start-from-left and outside rows are zero, non-negativity, partition of unity, high derivatives vanish, sparse = dense, periodic shift invariance. Correspondence: whole rows, dense and sparse, against the recompiled extension. SOURCE TIE: basis_eval.pyx (bisect, snap, evaluate kernel) and the basis.py methods snap/num_functions/start/end are re-translated from the current source into Lean on every run and committed equality theorems generated = model (Lemmas/PyxEq, PyBasisEq) are re-checked against the fresh definitions; multi-point calls compared as well.',
          'Full theorems on the model; the derivative recursion dB is additionally proved to be the derivative of the polynomial pieces (Lemmas/Deriv, DerivReal).'),
  'C02': ('Theorems: tensor evaluation = defining sums for pardim 1-3 (index algebra of the array model), rational division with positive denominator, pointwise = grid diagonal, error iff outside a non-periodic direction, periodic wrap, identity map of default control points (linear precision), bounding box. Correspondence over all calling forms.',
          'Scalar/squeeze/__call__ glue is outside the Lean model and covered by the correspondence and oracle only; generic-pardim statement not proved (pardim 1,2,3 separately).'),
  'C03': ("Theorems (49 + 16 source-derived): non-rational derivative entries = sums of products of Cox-de Boor derivative values for curves, surfaces and volumes (tensor and pointwise forms, arbitrary parameters via snapping); rational first order and curve/surface closed forms of order 2-3 equal the jet of n/W; over R the model's derivative(d<=3) of a rational curve IS the iterated one-sided derivative of the evaluated map (Mathlib HasDerivWithinAt, no Leibniz hypothesis); dispatch sound for every spelling of d and above; derivative spline evaluates to the derivative at object level. The dispatch tables of Curve/Surface.derivative are re-extracted from the Python AST every run and 16 obligations re-checked.",
          'Second/third-order rational SURFACE closed forms keep the Leibniz relations as hypotheses (two-variable calculus not formalised); three listed defect classes.'),
- 'C04': ('Theorems (20 + bridge): for every valid non-periodic basis and x in [start,stop) insert_knot returns the Boehm matrix: basis valid, knots = old + x, every spline value and derivative unchanged (both sides); sequences by induction; objects of any pardim fibre-wise and, through the bridge, Obj.evaluate itself unchanged for curves/surfaces/volumes; refine and geometric_refine values lie inside spans; PERIODIC case proved in full under the guard n >= p+k (knot vector, ghost repair, wrapped sums unchanged, sequences, objects, periodic curve evaluator).',
+ 'C04': ('Theorems (20 + bridge): for every valid non-periodic basis and x in [start,stop) insert_knot returns the Boehm matrix: basis valid, knots = old + x, every spline value and derivative unchanged (both sides); sequences by induction; objects of any pardim fibre-wise and, through the bridge, Obj.evaluate itself unchanged for curves/surfaces/volumes; refine and geometric_refine values lie inside spans; PERIODIC case proved in full under the guard n >= p+k (knot vector, ghost repair, wrapped sums unchanged, sequences, objects, periodic curve evaluator). SOURCE TIE: BSplineBasis.insert_knot is re-translated from basis.py each run and proved equal to the model (PyBasis_insert_knot_eq).',
          'Partial only where the code is defective (x = end, n < p+k: listed findings); center/edge_refine placement (tan/atan) is oracle-only.'),
- 'C05': ('Theorems: raise_order knot bookkeeping; FULL geometry theorem for clamped continuous bases in one parametric direction with no analytic hypothesis: degree-elevation inclusion (Lemmas/Elevation) and Schoenberg-Whitney at the Greville points (Lemmas/SchoenbergWhitney, total positivity by knot insertion) are proved, the Gauss-Jordan model of np.linalg.inv/solve is proved sound and complete, so raise_order succeeds and the evaluated map (rational included) is unchanged, lower_order returns the original control points; through the bridge Obj.evaluate unchanged for curves.',
-         'Partial: periodic bases (named hypotheses kept), the pardim 2-3 composition of the simultaneous re-interpolation, order-1 directions (listed findings).'),
+ 'C05': ('Theorems (20 + bridge + 5 source-derived): raise_order knot bookkeeping for clamped AND standard periodic knot vectors (C05_knots, C05_knots_periodic: ghost trimming reproduces the raised period, continuity unchanged); FULL geometry theorems with no analytic hypothesis for clamped continuous bases: curves, SURFACES and VOLUMES with simultaneous amounts in every direction (C05_geometry_clamped, _surface, _volume): degree-elevation inclusion (Lemmas/Elevation) and Schoenberg-Whitney at the Greville points (Lemmas/SchoenbergWhitney) are proved, the Gauss-Jordan model of np.linalg.inv/solve is proved sound and complete, so raise_order succeeds, returns the receiver, keeps the evaluated map (rational included) and non-negative weights; lower_order returns the original bases and control points (left inverse, pardim 1-3); through the bridge Obj.evaluate itself is unchanged for curves, surfaces and volumes. SOURCE TIE: raise_order, lower_order, knot_spans, continuity, greville of basis.py are re-translated each run and proved equal to the model.',
+         'Partial: periodic GEOMETRY (inclusion and collocation hypotheses for periodic bases kept as named hypotheses), periodic vectors whose ghosts span more than one period, order-1 directions and periodic lower_order (listed findings of the code).'),
  'C06': ('Theorems (30): reversed/reparametrised knot vectors in closed form, domain/periodicity preserved, reverse of curves and objects equals the reflected map (periodic: with the roll by k+1 the code omits - refuted for flip-only by a concrete instance), swap index algebra and evaluation, reparam exact domain and affine invariance, compositions and image invariance by induction over op lists; check_direction table re-extracted from the AST every run.',
          'Object bodies of reverse/swap/reparam are tied by correspondence only; three listed defect classes.'),
- 'C07': ('Theorems: every piece cut from the Boehm-refined vector is a valid open basis whose spline equals the original on its sub-interval (values and all derivatives, both sides); pieces tile; periodic split as shifted sequence (under the periodic-insertion hypothesis); append for equal orders; _splitvector arithmetic.',
-         'Partial: periodic branch assumes periodic insertion correct (known defective for n < p+k); roll/rollAxis link is tested, not proved; append with differing orders is oracle-only.'),
- 'C08': ('Theorems: evaluation invariant under shifts by multiples of the period (lifted from C01), seam smoothness up to order k (from L9), make_periodic∘openAtSeam = id on knots and every valid periodic basis is accepted, round trip exact for k <= 1, REFUTED for k >= 2 by a kernel-evaluated instance replayed on the real code, lower_periodic roll/decrement step.',
-         'Partial: domain end excluded in the shift theorem; k<=1 round trip and lower_periodic assume the insertion step (C04).'),
+ 'C07': ("Theorems (9 + 6 bridge): every piece cut from the Boehm-refined vector is a valid open basis whose spline equals the original on its sub-interval (values and all derivatives, both sides); pieces tile; PERIODIC split proved about the model's own Obj.split (C07_split_periodic_partial: under the guard n >= p+k the result is a valid open object on [x0, x0+T] whose map is the original at t, resp. t-T past the seam; multiplicity and roll links proved in Lemmas/C07Mult, C07Roll), later split values by composition (C07_split_periodic_pieces); append for equal orders; _splitvector arithmetic.",
+         'Partial: guard n >= p+k (periodic insertion is defective below it - listed), first split value in the base period, tolerance comparisons assumed exact at the split values (hexR/hexL); append with differing orders is oracle-only; listed corner classes.'),
+ 'C08': ("Theorems (15 + 2 source-derived): evaluation invariant under shifts by multiples of the period INCLUDING the domain end (C08_periodicity_partial, evaluate_stop_eq_start), seam smoothness up to order k (from L9), make_periodic∘openAtSeam = id on knots and every valid periodic basis is accepted; split at the seam computed in closed form for every k (C08_open_at_seam_partial), round trip split∘make_periodic exact for k <= 1 with no insertion hypothesis (C08_roundtrip_k_le_1_partial: o' = o), REFUTED for k >= 2 by a kernel-evaluated instance replayed on the real code; lower_periodic(k') for every -1 <= k' <= k keeps every value and derivative and gives a valid basis with periodic = k' (C08_lower_periodic_partial, evaluator level for curves), raising refused with ValueError. SOURCE TIE: make_periodic and roll of basis.py re-translated each run and proved equal to the model.",
+         'Partial: guard n >= p+k, seam separated from its neighbours by more than the tolerance, seam multiplicity as declared (hseam); k >= 2 merge weights, small bases, constructor gap are listed findings of the code.'),
  'C09': ('Theorems (16): linear maps and translations commute with the evaluated (projective) point for any finite weight family; every model op is affineCp with the stated matrix; weights literally untouched; rotation matrix orthogonal/det 1/Rodrigues +theta, 2-D = 3-D about e_z; mirror involution; embedding changes; operator forms; compositions by induction.',
          'The identification of Obj.evaluate with the weighted sum is C02; three listed defect classes (infix /, 2-D rotate ignores axis sign, numpy left operands).'),
  'C10': ('Theorems (30): constructor accepts/rejects exactly as coded and never rejects a Valid basis (gap to Valid exhibited); well-formedness preserved by clone, reverse, swap, reparam, section, extrude, affine family, set_dimension, force_rational (full) and by insert_knot/refine/split/make_periodic/append under named hypotheses; insertion matrix row-stochastic (weights stay positive); reachable objects well formed by induction over op lists. Correspondence: random op histories on a pool of objects, Lean wfB vs a Python transcription on the real objects.',
          'raise_order/lower_order/lower_periodic/periodic insertion/make_splines_identical are covered by checked results (wfB) and the correspondence only; four listed defect classes.'),
  'C11': ('Theorems on an explicit heap model (buffers, basis records, objects): separation invariant preserved by every contract-respecting step, isolation of in-place writes, in-place returns receiver, predicted sharing graph empty - for all histories. The operation/contract table (193 entries) is regenerated from the live API every run and totality re-proved; the real sharing graph (numpy.shares_memory), write set and isolation experiment are compared with the model.',
          'Partial: the per-operation contracts are premises validated dynamically, not proved from the Python source. Six listed defect classes.'),
- 'C12': ('Theorems (8): compatibility; knot-merge insertion counts; C12_open_curves: for two clamped curves of DIFFERENT orders make_splines_identical succeeds, both end with identical order and knot vector on [0,1] and both keep their map (no hypotheses on the called methods: C06 reparam, C05 full, C04); insertion geometry for any pardim; directions touch only their basis.',
-         'Partial: surfaces/volumes with different orders (needs the pardim 2-3 composition of C05) and periodic directions (lower_periodic) keep named hypotheses; five listed defect classes.'),
+ 'C12': ('Theorems (10): compatibility; knot-merge insertion counts; C12_open_curves, C12_open_surfaces, C12_open_volumes: for two clamped objects of DIFFERENT orders make_splines_identical succeeds, both end with identical order and knot vector on [0,1] and both keep their map (no hypotheses on the called methods: C06 reparam, C05 full for pardim 1-3, C04); insertion geometry for any pardim; directions touch only their basis.',
+         'Partial: periodic directions (lower_periodic) keep named hypotheses; five listed defect classes.'),
  'C13': ('Theorems (15): circle arcs, the p2C0 and p4C1 circles and circle_segment in B-SPLINE form lie on the circle for every parameter (spans identified with Bernstein/Bezier forms), counter-clockwise, placement rotation maps e_z to n and e_x to the x-axis and every evaluated point of a placed circle satisfies |x-c| = r and (x-c).n = 0, three-point arc ends at x2 and passes through x1 (over R), revolve/extrude sections, linear primitives, sphere/torus equations; control nets of all factories (incl. the solid sphere) compared with the model.',
          "Cobb's cube-sphere faces on the sphere not proved; two listed defect classes."),
  'C14': ('Theorems (29): the certified solve IS the Gauss-Jordan model and that model is sound and complete; interpolation in spec terms (splineVal / Obj.evaluate at t_i equals x_i) for curves, non-square surfaces (both layouts) and volumes; with Schoenberg-Whitney: interpolation at the Greville points (and at any nested parameters) of a clamped continuous basis SUCCEEDS and interpolates - no solvability hypothesis; projection for interpolation and least squares (curves, surface grids); cubic_curve square system and end rows for all six boundary types; loft through its sections; bezier; rebuild; factory transposes cancel.',
